@@ -43,6 +43,16 @@ func c18Progs(native bool) []*actlang.Prog {
 			prog(true, Op{K: actlang.InPlace}, Op{K: actlang.Del, A: "k!"}, Op{K: actlang.Clear}, Op{K: actlang.Set, A: "z", V: 1.0}),
 			prog(true, Op{K: actlang.InPlace}, Op{K: actlang.Del, A: "k!"}, Op{K: actlang.Set, A: "cfg!", V: 0.0}, Op{K: actlang.RetNull}),
 			prog(true, Op{K: actlang.InPlace}, Op{K: actlang.Del, A: "k!"}, Op{K: actlang.Throw}))
+		// the same programs as sources for an interpreter written in Go (which hands them the caller's map)
+		for _, p := range ps[1:] {
+			q := *p
+			q.ViaSource = true
+			ps = append(ps, &q)
+		}
+		ps = append(ps,
+			&actlang.Prog{Native: true, ViaSource: true, Ops: []Op{{K: actlang.InPlace}, {K: actlang.Del, A: "k!"}, {K: actlang.Set, A: "cfg!", V: "other"}, {K: actlang.Set, A: "z", V: 1.0}}},
+			&actlang.Prog{Native: true, ViaSource: true, Ops: []Op{{K: actlang.InPlace}, {K: actlang.Set, A: "k!", V: "other"}, {K: actlang.RetSame}}},
+			&actlang.Prog{Native: true, ViaSource: true, Ops: []Op{{K: actlang.InPlace}, {K: actlang.Del, A: "?dev!"}, {K: actlang.Del, A: "k!"}}})
 	} else {
 		ps = append(ps, prog(false, Op{K: actlang.MutateDeep, A: "cfg!.a"}),
 			prog(false, Op{K: actlang.MutateDeep, A: "cfg!.a.1.b"}),
